@@ -20,6 +20,7 @@ func init() {
 			"R19 (= C13.R10) the And/Or combinators, also with two members answering differently: the path put back is the one read before the first member. " +
 			"R20 every capturing segment the parser builds is remembered for the duplicate-name test before the next piece is parsed. " +
 			"R21 a parameter rule that contains '{' is refused; R22 the end-point flag is the emptiness of the suffix; R1 also: an abandoned capturing child's name gets back the value it held before the attempt. " +
+			"R23 (= C02.R21) the split point of two segment texts, for all pairs of texts. " +
 			"Not decided: that captured text satisfies the regexp / interceptor constraint for all inputs (semantics of regexp and of user functions).",
 		Assumptions: append([]string{"Segment.Match changes ctx.Path and the parameters only when it returns true (checked for captures by R2)"}, commonAssumptions...),
 		Run: func(c *Ctx) {
@@ -48,6 +49,7 @@ func init() {
 			ruleParameterNamesAreRemembered(c, "R20")
 			ruleRuleTextHasNoBraces(c, "R21")
 			ruleEndpointIsAnEmptySuffix(c, "R22")
+			ruleSplitPointAutomaton(c, "R23")
 			rulePoolReleaseOnce(c, "R16")
 		},
 	})
